@@ -1,4 +1,4 @@
-CONSTANTS Variant = "std"  MaxSum = 14  MaxIns = 2  MaxPays = 4  MaxFee = 5
+CONSTANTS Variant = "std"  MaxSum = 14  MaxIns = 1  MaxPays = 4  MaxFee = 5
           ScaleKs = {12}  ScaleRs = {0}
 SPECIFICATION Spec
 INVARIANTS TypeOK BuildOK DealInv DoneIsBuild Conservation Positivity AtMostOneApart ErrorIffInsufficient OutcomeOK FeeLemma
